@@ -52,6 +52,12 @@ def _run_jobs(jobs, nproc):
     import shutil
     import tempfile
 
+    import gc
+
+    # children are short-lived: keep them from copying the whole heap (a
+    # collection writes to every container's header => copy-on-write faults)
+    gc.collect()
+    gc.freeze()
     tmp = tempfile.mkdtemp(prefix="verif-pristine-")
     results = [None] * len(jobs)
     running = {}  # pid -> job index
@@ -63,6 +69,7 @@ def _run_jobs(jobs, nproc):
                 pid = os.fork()
                 if pid == 0:
                     code = 1
+                    gc.disable()
                     try:
                         sys.setrecursionlimit(3000)
                         if not is_pristine():
@@ -102,15 +109,20 @@ def _run_jobs(jobs, nproc):
     return results
 
 
-def _reserve_main(conn):
+def _reserve_main(conn, other_end, owner):
     """The reserve: never runs pycparser code; forks one child per job."""
     import signal
 
     signal.signal(signal.SIGINT, signal.SIG_IGN)
+    other_end.close()  # or the end of the owner would never be seen
     while True:
         try:
+            if not conn.poll(2.0):
+                if os.getppid() != owner:
+                    break
+                continue
             req = conn.recv()
-        except EOFError:
+        except (EOFError, OSError):
             break
         if req is None:
             break
@@ -135,7 +147,7 @@ def start_reserve():
             + _TOUCHED[os.getpid()] + "): baselines would be polluted")
     ctx = mp.get_context("fork")
     parent, child = ctx.Pipe()
-    proc = ctx.Process(target=_reserve_main, args=(child,), daemon=False)
+    proc = ctx.Process(target=_reserve_main, args=(child, parent, os.getpid()), daemon=False)
     proc.start()
     child.close()
     _RESERVE = (proc, parent, os.getpid())
